@@ -65,7 +65,7 @@ def cases(tier, seed):
     n = 150 if tier == "quick" else 6000
     for spec in workload.standard_cases(tier, seed, n, n, opts_fn=opts, frag_share=0.35,
                                         p={"variant_prob": 0.1, "na_prob": 0.1, "waters": [0, 2, 5], "damage_prob": 0.4,
-                                           "dense_prob": 0.9, "pool": None}):
+                                           "dense_prob": 0.9, "pool": None, "crowd_prob": 0.35}):
         spec["kind"] = "run"
         out.append(spec)
     nd = 16 if tier == "quick" else 600
